@@ -339,20 +339,15 @@ func (j *judge) judgeGC(i int, op *Op, p *Proj, o *Obs, prev *Obs) {
 	if o.TreeBefore != o.TreeAfter {
 		j.viol("gc-not-confined", i, "gc changed something outside .dawn/build")
 	}
+	// what exists when the collection runs: the targets and sources of the build files (not of a possibly stale index)
 	live := map[string]bool{}
-	if op.PreferIndex && prev != nil && prev.Index == "g" {
-		for _, l := range prev.IndexLbls {
-			live[l] = true
+	for _, t := range p.live() {
+		live[t.Label()] = true
+		if t.Default {
+			live[defaultLabel(t.Pkg)] = true
 		}
-	} else {
-		for _, t := range p.live() {
-			live[t.Label()] = true
-			if t.Default {
-				live[defaultLabel(t.Pkg)] = true
-			}
-			for _, s := range t.Srcs {
-				live[sourceLabelOf(s)] = true
-			}
+		for _, s := range t.Srcs {
+			live[sourceLabelOf(s)] = true
 		}
 	}
 	if prev != nil {
@@ -578,7 +573,11 @@ func runHistory(r *runner, prop string, h *History) (*played, []violation, *stat
 	}
 	st.Targets[n]++
 	if main.err != nil {
-		j.viol("harness", 0, "%v", main.err)
+		kind := "harness"
+		if strings.Contains(main.err.Error(), "(hang)") {
+			kind = "hang"
+		}
+		j.viol(kind, len(main.obs), "%v", main.err)
 		return main, j.viols, st
 	}
 	j.after(main)
@@ -605,7 +604,7 @@ func pathStream(r *rng, n int) []pair {
 		return sb.String()
 	}
 	for i := 0; i < n; i++ {
-		kind := []string{"", "source", "target", "module", word(3)}[r.below(5)]
+		kind := []string{"", "source", "target", "module", strings.NewReplacer("/", "", ":", "").Replace(word(3))}[r.below(5)] // label.New rejects kinds with ':' or '/'
 		pkg := word(6)
 		name := word(5)
 		l := &label.Label{Kind: kind, Package: "//" + pkg, Name: name}
@@ -770,9 +769,9 @@ func main() {
 		return
 	}
 
-	n, nops := 12, 14
+	n, nops := 100, 14
 	if *tier == "thorough" {
-		n, nops = 150, 18
+		n, nops = 1500, 18
 	}
 	if *nhist > 0 {
 		n = *nhist
